@@ -4,8 +4,20 @@
 //! * `greedy <i64|f64> <k> <n> <w…> <m> <p…>`  (`f64`: the same integers, converted exactly with
 //!   `as f64`, and Greedy runs on `Vec<f64>`)
 //!   out: `ok <ids>` | `lenmismatch` | `panic …` | `err …`
+//! * `greedyf <k> <n> <w… as f64 bit patterns, hex> <m> <p…>`: Greedy on `f64` weights whose sums
+//!   are NOT exact (tenths, thirds, integers just above 2^53).  The integer model does not apply
+//!   (its line is `skip`); the oracle recomputes LPT with the same `f64` additions in the same
+//!   order and compares the multiset of loads bit for bit.
+//!   out: `ok <ids>` | …
 //! * `kk <k> <ids|loads> <n> <w…> <m> <p…>`
 //!   out: `ok ids <ids>` | `ok loads <part loads, ascending>` | `lenmismatch` | `panic …` | `err …`
+//!
+//! Every op with matching lengths is run a second time on REUSED objects (an algorithm value that
+//! already served another input, an id array left by a run with more parts) and, for 4096
+//! weights or more, inside rayon pools of two different sizes: the answers must be identical.
+//! Above the sizes the list-based Lean model can handle in a few seconds (`Driver/C12.lean`:
+//! n > 21000, or n·k > 13000 for k-way KarmarkarKarp) the model line is `skip large-n` and the
+//! oracle alone judges the case.
 //!
 //! Greedy and two-way KarmarkarKarp are deterministic (their sort/heap keys contain the index),
 //! so ids are compared exactly.  k-way KarmarkarKarp (k ≥ 3) sorts the combined row by weight
@@ -26,6 +38,7 @@ const FILL: usize = usize::MAX;
 
 enum Op {
     Greedy { float: bool, k: usize, ws: Vec<i64>, p: Vec<usize> },
+    GreedyF { k: usize, ws: Vec<f64>, p: Vec<usize> },
     Kk { k: usize, loads: bool, ws: Vec<i64>, p: Vec<usize> },
 }
 
@@ -49,6 +62,19 @@ fn greedy_op(float: bool, k: usize, ws: &[i64], p: &[usize]) -> String {
 
 fn kk_op(k: usize, loads: bool, ws: &[i64], p: &[usize]) -> String {
     format!("kk {} {} {}", k, if loads { "loads" } else { "ids" }, fmt_arrays(ws, p))
+}
+
+fn greedyf_op(k: usize, ws: &[f64], p: &[usize]) -> String {
+    let mut s = format!("greedyf {} {}", k, ws.len());
+    for w in ws {
+        s.push_str(&format!(" {:x}", w.to_bits()));
+    }
+    s.push_str(&format!(" {}", p.len()));
+    if !p.is_empty() {
+        s.push(' ');
+        s.push_str(&join(p));
+    }
+    s
 }
 
 fn parse_arrays<'a>(it: &mut impl Iterator<Item = &'a str>) -> Option<(Vec<i64>, Vec<usize>)> {
@@ -84,6 +110,28 @@ fn parse_op(op: &str) -> Option<Op> {
                 return None;
             }
             Some(Op::Greedy { float, k, ws, p })
+        }
+        "greedyf" => {
+            let k: usize = it.next()?.parse().ok()?;
+            let n: usize = it.next()?.parse().ok()?;
+            let mut ws = Vec::with_capacity(n.min(1 << 16));
+            for _ in 0..n {
+                let w = f64::from_bits(u64::from_str_radix(it.next()?, 16).ok()?);
+                // the property's quantifier: non-negative finite weights
+                if !w.is_finite() || w < 0.0 {
+                    return None;
+                }
+                ws.push(w);
+            }
+            let m: usize = it.next()?.parse().ok()?;
+            let mut p = Vec::with_capacity(m.min(1 << 16));
+            for _ in 0..m {
+                p.push(it.next()?.parse().ok()?);
+            }
+            if it.next().is_some() {
+                return None;
+            }
+            Some(Op::GreedyF { k, ws, p })
         }
         "kk" => {
             let k: usize = it.next()?.parse().ok()?;
@@ -227,6 +275,17 @@ fn residue(ws: &[i64]) -> i64 {
 
 type Verdict = Option<(&'static str, String)>;
 
+/// What one run of an op reports back to `run_op`.
+struct Ran {
+    out: String,
+    verdict: Verdict,
+    nontrivial: bool,
+    /// the reuse comparison was made
+    reused: bool,
+    /// pool sizes used (large cases only)
+    pools: Option<(usize, usize)>,
+}
+
 pub fn run_op(ctx: &mut Ctx, op: &str) {
     if ctx.hang_limit_reached() {
         return;
@@ -235,29 +294,188 @@ pub fn run_op(ctx: &mut Ctx, op: &str) {
         ctx.record(op.to_string(), "bad-op".into(), false);
         return;
     };
-    let (out, verdict, nontrivial) = match parsed {
+    let r = match parsed {
         Op::Greedy { float, k, ws, p } => run_greedy(float, k, &ws, &p),
+        Op::GreedyF { k, ws, p } => run_greedyf(k, &ws, &p),
         Op::Kk { k, loads, ws, p } => run_kk(k, loads, &ws, &p),
     };
     let kind = if op.starts_with("greedy") { "greedy" } else { "kk" };
-    ctx.count(&format!("out_{}_{}", kind, out.split(' ').next().unwrap_or("")));
-    let idx = ctx.record(op.to_string(), out, nontrivial);
-    if let Some((sig, what)) = verdict {
+    ctx.count(&format!("out_{}_{}", kind, r.out.split(' ').next().unwrap_or("")));
+    if r.reused {
+        ctx.count("reuse");
+    }
+    if let Some((a, b)) = r.pools {
+        ctx.count(&format!("pool:{}", a));
+        ctx.count(&format!("pool:{}", b));
+    }
+    let idx = ctx.record(op.to_string(), r.out, r.nontrivial);
+    if let Some((sig, what)) = r.verdict {
         ctx.fail(idx, sig, what);
     }
 }
 
-fn run_greedy(float: bool, k: usize, ws: &[i64], p0: &[usize]) -> (String, Verdict, bool) {
-    let mut p = p0.to_vec();
-    let res = if float {
-        let v: Vec<f64> = ws.iter().map(|&w| w as f64).collect();
-        catch(|| coupe::Greedy { part_count: k }.partition(&mut p, v))
-    } else {
-        let v: Vec<i64> = ws.to_vec();
-        catch(|| coupe::Greedy { part_count: k }.partition(&mut p, v))
+// ------------------------------------------------------------------ pools and reuse
+
+/// Large cases run inside rayon pools (Greedy and KarmarkarKarp are sequential today; a blocked
+/// or parallel variant must not change the answer): the fresh run in a pool of `.0` workers, the
+/// reuse run in a pool of `.1` workers.  Deterministic in the op.
+fn pools_for(n: usize, k: usize) -> Option<(usize, usize)> {
+    if n < 4096 {
+        return None;
+    }
+    const T: [usize; 4] = [1, 2, 3, 16];
+    let i = (n / 7 + k) % 4;
+    Some((T[i], T[(i + 1 + k % 3) % 4]))
+}
+
+fn in_pool<T: Send>(threads: Option<usize>, f: impl FnOnce() -> T + Send) -> T {
+    match threads {
+        Some(t) => with_pool(t, f),
+        None => f(),
+    }
+}
+
+type Res = Result<(), coupe::Error>;
+
+fn res_class(r: &Caught<Res>) -> String {
+    match r {
+        Caught::Ok(Ok(())) => "ok".into(),
+        Caught::Ok(Err(e)) => format!("err {:?}", e),
+        Caught::Panic(m) => format!("panic {}", m),
+        Caught::Hang => "hang".into(),
+    }
+}
+
+/// The reuse protocol, generic in the weight type.  `run(k, array, weights)` calls the algorithm
+/// with a FRESH value; `run2(k, a1, w1, a2, w2)` calls ONE algorithm value on two inputs in a row.
+/// 1. an id array is filled by a run with `k + 3` parts on another input (`other`);
+/// 2. one algorithm value with `k` parts serves `other` (scratch array), then the real input on
+///    the array left by step 1.
+/// The outcome must be the one of the fresh run: same result, same ids.
+fn reuse_differs<W: Clone>(
+    k: usize,
+    ws: &[W],
+    other: &[W],
+    p0: &[usize],
+    fresh: &Caught<Res>,
+    fresh_ids: &[usize],
+    threads: Option<usize>,
+    run: &(dyn Fn(usize, &mut [usize], Vec<W>) -> Res + Sync),
+    run2: &(dyn Fn(usize, &mut [usize], Vec<W>, &mut [usize], Vec<W>) -> Res + Sync),
+) -> Option<String>
+where
+    W: Send + Sync,
+{
+    let mut buf = p0.to_vec();
+    let mut scratch = vec![0usize; p0.len()];
+    let again: Caught<Res> = in_pool(threads, || {
+        catch(|| {
+            let _ = run(k + 3, &mut buf, other.to_vec());
+            run2(k, &mut scratch, other.to_vec(), &mut buf, ws.to_vec())
+        })
+    });
+    let (a, b) = (res_class(fresh), res_class(&again));
+    if a != b {
+        return Some(format!("fresh run: {} / reused objects: {}", a, b));
+    }
+    if matches!(fresh, Caught::Ok(Ok(()))) && buf != fresh_ids {
+        let i = buf.iter().zip(fresh_ids).position(|(x, y)| x != y).unwrap_or(0);
+        return Some(format!(
+            "ids differ at index {} (fresh {}, reused objects {})",
+            i,
+            fresh_ids.get(i).copied().unwrap_or(0),
+            buf.get(i).copied().unwrap_or(0)
+        ));
+    }
+    None
+}
+
+/// Another input of the same length (used to give the reused objects a history).
+fn other_i64(ws: &[i64]) -> Vec<i64> {
+    ws.iter().rev().map(|w| w / 2 + 1).collect()
+}
+
+fn greedy_fresh<W: coupe::GreedyWeight>(k: usize, a: &mut [usize], w: Vec<W>) -> Res {
+    coupe::Greedy { part_count: k }.partition(a, w)
+}
+
+fn greedy_twice<W: coupe::GreedyWeight>(
+    k: usize,
+    a1: &mut [usize],
+    w1: Vec<W>,
+    a2: &mut [usize],
+    w2: Vec<W>,
+) -> Res {
+    let mut alg = coupe::Greedy { part_count: k };
+    let _ = alg.partition(a1, w1);
+    alg.partition(a2, w2)
+}
+
+fn kk_fresh(k: usize, a: &mut [usize], w: Vec<i64>) -> Res {
+    coupe::KarmarkarKarp { part_count: k }.partition(a, w)
+}
+
+fn kk_twice(k: usize, a1: &mut [usize], w1: Vec<i64>, a2: &mut [usize], w2: Vec<i64>) -> Res {
+    let mut alg = coupe::KarmarkarKarp { part_count: k };
+    let _ = alg.partition(a1, w1);
+    alg.partition(a2, w2)
+}
+
+/// Outcomes other than `Ok(Ok(()))`, shared by the three runners.
+fn other_outcome(algo: &str, res: Caught<Res>, lens_match: bool) -> (String, Verdict) {
+    let sig = |s: &str| -> &'static str {
+        match (algo, s) {
+            ("greedy", "spurious") => "greedy-spurious-lenmismatch",
+            ("greedy", _) => "greedy-unexpected-error",
+            (_, "spurious") => "kk-spurious-lenmismatch",
+            _ => "kk-unexpected-error",
+        }
     };
+    match res {
+        Caught::Ok(Ok(())) => unreachable!(),
+        Caught::Ok(Err(coupe::Error::InputLenMismatch { .. })) => {
+            let v = if lens_match {
+                Some((sig("spurious"), "InputLenMismatch on matching lengths".to_string()))
+            } else {
+                None
+            };
+            ("lenmismatch".to_string(), v)
+        }
+        Caught::Ok(Err(e)) => (format!("err {:?}", e), Some((sig("error"), format!("{:?}", e)))),
+        Caught::Panic(m) => {
+            let s = panic_sig(&m);
+            (format!("panic {}", m), Some(("panic", format!("{} [{}]", m, s))))
+        }
+        Caught::Hang => ("hang".into(), Some(("hang", "watchdog".into()))),
+    }
+}
+
+fn run_greedy(float: bool, k: usize, ws: &[i64], p0: &[usize]) -> Ran {
     let lens_match = ws.len() == p0.len();
+    let pools = if lens_match { pools_for(ws.len(), k) } else { None };
+    let mut p = p0.to_vec();
+    let wf: Vec<f64> = if float { ws.iter().map(|&w| w as f64).collect() } else { vec![] };
+    let res: Caught<Res> = in_pool(pools.map(|t| t.0), || {
+        if float {
+            catch(|| greedy_fresh(k, &mut p, wf.clone()))
+        } else {
+            catch(|| greedy_fresh(k, &mut p, ws.to_vec()))
+        }
+    });
     let nontrivial = lens_match && ws.len() >= 2 && k >= 2;
+    let mut reuse_verdict: Verdict = None;
+    if lens_match {
+        let other = other_i64(ws);
+        let d = if float {
+            let of: Vec<f64> = other.iter().map(|&w| w as f64).collect();
+            reuse_differs(k, &wf, &of, p0, &res, &p, pools.map(|t| t.1), &greedy_fresh::<f64>, &greedy_twice::<f64>)
+        } else {
+            reuse_differs(k, ws, &other, p0, &res, &p, pools.map(|t| t.1), &greedy_fresh::<i64>, &greedy_twice::<i64>)
+        };
+        if let Some(d) = d {
+            reuse_verdict = Some(("greedy-reuse-differs", d));
+        }
+    }
     let (out, verdict): (String, Verdict) = match res {
         Caught::Ok(Ok(())) => {
             let mut v = None;
@@ -266,7 +484,7 @@ fn run_greedy(float: bool, k: usize, ws: &[i64], p0: &[usize]) -> (String, Verdi
             } else if let Some(loads) = part_loads(ws, &p, k.max(1)) {
                 if k < 2 {
                     if p.iter().any(|&i| i != 0) {
-                        v = Some(("greedy-k1-not-zero", format!("part_count {} but ids {:?}", k, p)));
+                        v = Some(("greedy-k1-not-zero", format!("part_count {} but ids {}", k, short(&p))));
                     }
                 } else {
                     // holds for all integers, negative ones included
@@ -276,44 +494,134 @@ fn run_greedy(float: bool, k: usize, ws: &[i64], p0: &[usize]) -> (String, Verdi
                     if got != want {
                         v = Some((
                             "greedy-not-lpt",
-                            format!("sorted loads {:?} but LPT gives {:?}", got, want),
+                            format!("sorted loads {} but LPT gives {}", short(&got), short(&want)),
                         ));
                     }
                 }
             } else {
                 v = Some((
                     "greedy-id-out-of-range",
-                    format!("an id >= {} in {:?}", k.max(1), p),
+                    format!("an id >= {} in {}", k.max(1), short(&p)),
                 ));
             }
             (format!("ok {}", join(&p)), v)
         }
-        Caught::Ok(Err(coupe::Error::InputLenMismatch { .. })) => {
-            let v = if lens_match {
-                Some(("greedy-spurious-lenmismatch", "InputLenMismatch on matching lengths".to_string()))
-            } else {
-                None
-            };
-            ("lenmismatch".to_string(), v)
-        }
-        Caught::Ok(Err(e)) => (format!("err {:?}", e), Some(("greedy-unexpected-error", format!("{:?}", e)))),
-        Caught::Panic(m) => {
-            let sig = panic_sig(&m);
-            (format!("panic {}", m), Some(("panic", format!("{} [{}]", m, sig))))
-        }
-        Caught::Hang => ("hang".into(), Some(("hang", "watchdog".into()))),
+        r => other_outcome("greedy", r, lens_match),
     };
-    (out, verdict, nontrivial)
+    Ran { out, verdict: verdict.or(reuse_verdict), nontrivial, reused: lens_match, pools }
 }
 
-fn run_kk(k: usize, cmp_loads: bool, ws: &[i64], p0: &[usize]) -> (String, Verdict, bool) {
-    let mut p = p0.to_vec();
-    let v: Vec<i64> = ws.to_vec();
-    let res = catch(|| coupe::KarmarkarKarp { part_count: k }.partition(&mut p, v));
+/// `{:?}` of a slice, shortened (large cases).
+fn short<T: std::fmt::Debug>(xs: &[T]) -> String {
+    if xs.len() <= 40 {
+        format!("{:?}", xs)
+    } else {
+        format!("{:?}… ({} entries)", &xs[..40], xs.len())
+    }
+}
+
+/// LPT on `f64` weights with exactly the additions Greedy makes: weights in non-increasing order
+/// (equal weights are the same number, their order cannot matter), each added to a currently
+/// lightest part (equally light parts hold the same number, the choice cannot matter for the
+/// multiset).  Returns the sorted bit patterns of the loads.
+fn lpt_loads_f64_bits(ws: &[f64], k: usize) -> Vec<u64> {
+    let mut v = ws.to_vec();
+    v.sort_by(|a, b| b.partial_cmp(a).unwrap());
+    let mut l = vec![0.0f64; k];
+    for w in v {
+        let mut best = 0;
+        for j in 1..k {
+            if l[j] < l[best] {
+                best = j;
+            }
+        }
+        l[best] += w;
+    }
+    let mut bits: Vec<u64> = l.iter().map(|x| x.to_bits()).collect();
+    bits.sort();
+    bits
+}
+
+/// Loads of the implementation's ids, added up in the order Greedy adds them (non-increasing
+/// weight).  `None` if an id is out of range.
+fn part_loads_f64_bits(ws: &[f64], ids: &[usize], k: usize) -> Option<Vec<u64>> {
+    let mut order: Vec<usize> = (0..ws.len()).collect();
+    order.sort_by(|&a, &b| ws[b].partial_cmp(&ws[a]).unwrap());
+    let mut l = vec![0.0f64; k];
+    for i in order {
+        if ids[i] >= k {
+            return None;
+        }
+        l[ids[i]] += ws[i];
+    }
+    let mut bits: Vec<u64> = l.iter().map(|x| x.to_bits()).collect();
+    bits.sort();
+    Some(bits)
+}
+
+fn run_greedyf(k: usize, ws: &[f64], p0: &[usize]) -> Ran {
     let lens_match = ws.len() == p0.len();
+    let pools = if lens_match { pools_for(ws.len(), k) } else { None };
+    let mut p = p0.to_vec();
+    let res: Caught<Res> = in_pool(pools.map(|t| t.0), || catch(|| greedy_fresh(k, &mut p, ws.to_vec())));
+    let nontrivial = lens_match && ws.len() >= 2 && k >= 2;
+    let mut reuse_verdict: Verdict = None;
+    if lens_match {
+        let other: Vec<f64> = ws.iter().rev().map(|w| w * 0.5 + 1.0).collect();
+        if let Some(d) = reuse_differs(k, ws, &other, p0, &res, &p, pools.map(|t| t.1), &greedy_fresh::<f64>, &greedy_twice::<f64>) {
+            reuse_verdict = Some(("greedy-reuse-differs", d));
+        }
+    }
+    let (out, verdict): (String, Verdict) = match res {
+        Caught::Ok(Ok(())) => {
+            let mut v = None;
+            if !lens_match {
+                v = Some(("greedy-len-mismatch-ok", "Ok despite a length mismatch".to_string()));
+            } else if let Some(got) = part_loads_f64_bits(ws, &p, k.max(1)) {
+                if k < 2 {
+                    if p.iter().any(|&i| i != 0) {
+                        v = Some(("greedy-k1-not-zero", format!("part_count {} but ids {}", k, short(&p))));
+                    }
+                } else {
+                    let want = lpt_loads_f64_bits(ws, k);
+                    if got != want {
+                        let i = got.iter().zip(&want).position(|(a, b)| a != b).unwrap_or(0);
+                        v = Some((
+                            "greedy-not-lpt",
+                            format!(
+                                "f64 loads differ from sequential LPT (same additions): {}-th smallest load {:e} vs {:e}",
+                                i,
+                                f64::from_bits(got[i]),
+                                f64::from_bits(want[i])
+                            ),
+                        ));
+                    }
+                }
+            } else {
+                v = Some(("greedy-id-out-of-range", format!("an id >= {} in {}", k.max(1), short(&p))));
+            }
+            (format!("ok {}", join(&p)), v)
+        }
+        r => other_outcome("greedy", r, lens_match),
+    };
+    Ran { out, verdict: verdict.or(reuse_verdict), nontrivial, reused: lens_match, pools }
+}
+
+fn run_kk(k: usize, cmp_loads: bool, ws: &[i64], p0: &[usize]) -> Ran {
+    let lens_match = ws.len() == p0.len();
+    let pools = if lens_match { pools_for(ws.len(), k) } else { None };
+    let mut p = p0.to_vec();
+    let res: Caught<Res> = in_pool(pools.map(|t| t.0), || catch(|| kk_fresh(k, &mut p, ws.to_vec())));
     let n = ws.len();
     let nontrivial = lens_match && n >= 2 && k >= 2;
     let kk1 = k.max(1);
+    let mut reuse_verdict: Verdict = None;
+    if lens_match {
+        let other = other_i64(ws);
+        if let Some(d) = reuse_differs(k, ws, &other, p0, &res, &p, pools.map(|t| t.1), &kk_fresh, &kk_twice) {
+            reuse_verdict = Some(("kk-reuse-differs", d));
+        }
+    }
     let (out, verdict): (String, Verdict) = match res {
         Caught::Ok(Ok(())) => {
             let mut v = None;
@@ -324,7 +632,7 @@ fn run_kk(k: usize, cmp_loads: bool, ws: &[i64], p0: &[usize]) -> (String, Verdi
                     if p.iter().any(|&i| i != 0) {
                         v = Some((
                             "kk-trivial-not-zero",
-                            format!("part_count {} / {} weights but ids {:?}", k, n, p),
+                            format!("part_count {} / {} weights but ids {}", k, n, short(&p)),
                         ));
                     }
                 } else {
@@ -345,13 +653,13 @@ fn run_kk(k: usize, cmp_loads: bool, ws: &[i64], p0: &[usize]) -> (String, Verdi
                         if hi - lo > wmax {
                             v = Some((
                                 "kk-gap-exceeds-max",
-                                format!("loads {:?}: gap {} > largest weight {}", loads, hi - lo, wmax),
+                                format!("loads {}: gap {} > largest weight {}", short(&loads), hi - lo, wmax),
                             ));
                         }
                     }
                 }
             } else {
-                v = Some(("kk-id-out-of-range", format!("an id >= {} in {:?}", kk1, p)));
+                v = Some(("kk-id-out-of-range", format!("an id >= {} in {}", kk1, short(&p))));
             }
             let out = if cmp_loads {
                 // tie-invariant observable: loads of parts 0..max(k,1), ascending; ids out of
@@ -369,22 +677,9 @@ fn run_kk(k: usize, cmp_loads: bool, ws: &[i64], p0: &[usize]) -> (String, Verdi
             };
             (out, v)
         }
-        Caught::Ok(Err(coupe::Error::InputLenMismatch { .. })) => {
-            let v = if lens_match {
-                Some(("kk-spurious-lenmismatch", "InputLenMismatch on matching lengths".to_string()))
-            } else {
-                None
-            };
-            ("lenmismatch".to_string(), v)
-        }
-        Caught::Ok(Err(e)) => (format!("err {:?}", e), Some(("kk-unexpected-error", format!("{:?}", e)))),
-        Caught::Panic(m) => {
-            let sig = panic_sig(&m);
-            (format!("panic {}", m), Some(("panic", format!("{} [{}]", m, sig))))
-        }
-        Caught::Hang => ("hang".into(), Some(("hang", "watchdog".into()))),
+        r => other_outcome("kk", r, lens_match),
     };
-    (out, verdict, nontrivial)
+    Ran { out, verdict: verdict.or(reuse_verdict), nontrivial, reused: lens_match, pools }
 }
 
 // ------------------------------------------------------------------ generator
@@ -615,6 +910,244 @@ pub fn generate(ctx: &mut Ctx) {
             1 => emit_greedy(ctx, false, k, &ws, &p),
             _ => {
                 let _ = emit_kk(ctx, k, &ws, &p);
+            }
+        }
+    }
+
+    // 4. parameter corners and large sizes
+    corner_stream(ctx);
+    large_stream(ctx);
+}
+
+// ------------------------------------------------------------------ corner and large streams
+
+/// Sizes up to which `Driver/C12.lean` runs the model (beyond: `skip large-n`).
+const MODEL_MAX_NK: usize = 13000;
+
+/// k-way KarmarkarKarp, comparing the sorted loads (always tie-invariant) without classifying
+/// the case: used where the classification (quadratic) or the model is too slow.
+fn emit_kk_loads(ctx: &mut Ctx, k: usize, ws: &[i64], p: &[usize]) {
+    ctx.count("kk_cmp_loads_unclassified");
+    let op = kk_op(k, true, ws, p);
+    run_op(ctx, &op);
+}
+
+fn emit_kk_auto(ctx: &mut Ctx, k: usize, ws: &[i64], p: &[usize]) {
+    if k >= 3 && (ws.len() > 400 || ws.len() * k > MODEL_MAX_NK) {
+        emit_kk_loads(ctx, k, ws, p);
+    } else {
+        let _ = emit_kk(ctx, k, ws, p);
+    }
+}
+
+const CORNER_KS: [usize; 8] = [63, 64, 65, 66, 128, 256, 257, 1000];
+
+/// Part counts 63, 64, 65, 66, 128, 256, 257, 1000 (even and odd) with fewer weights than
+/// parts (2, 3, k-1, and a count the k-way model can follow), as many, and more (k+37, 4k+1);
+/// weights near 2^61 whose total fits in `i64`; `f64` weights with inexact sums.
+fn corner_stream(ctx: &mut Ctx) {
+    for &k in &CORNER_KS {
+        let n_model = (3000 / k).max(4).min(k - 1);
+        let ns = [2usize, 3, n_model, k - 1, k, k + 37, 4 * k + 1];
+        for (j, &n) in ns.iter().enumerate() {
+            let rel = if n < k { "n_lt_k" } else if n == k { "n_eq_k" } else { "n_gt_k" };
+            // two weight shapes per (k, n): wide values, and small values with many ties
+            for shape in [1usize, 0] {
+                let ws = weights(ctx, shape, n);
+                let p = initial_array(ctx, n);
+                ctx.count(&format!("corner:k{}_{}", k, rel));
+                emit_greedy(ctx, (j + shape) % 2 == 1, k, &ws, &p);
+                // the list-based k-way model costs ≈ (n·k)² / 10^8 s: above n·k = 1500 only one
+                // of the two shapes goes through KarmarkarKarp when the model follows the case
+                if shape == 1 || n * k <= 1500 || n * k > MODEL_MAX_NK {
+                    ctx.count(&format!("corner:k{}_{}", k, rel));
+                    emit_kk_auto(ctx, k, &ws, &p);
+                }
+            }
+        }
+        // a second call with a weight vector that has one dominant element
+        let ws = weights(ctx, 4, k + 5);
+        let p = initial_array(ctx, k + 5);
+        ctx.count(&format!("corner:k{}_dominant", k));
+        emit_greedy(ctx, false, k, &ws, &p);
+        ctx.count(&format!("corner:k{}_dominant", k));
+        emit_kk_auto(ctx, k, &ws, &p);
+    }
+    // exactly two and three weights, two-way
+    for n in [2usize, 3] {
+        for _ in 0..4 {
+            let ws = weights(ctx, 1, n);
+            ctx.count("corner:two_way_n2_n3");
+            emit_kk_auto(ctx, 2, &ws, &vec![FILL; n]);
+            emit_greedy(ctx, false, 2, &ws, &vec![FILL; n]);
+        }
+    }
+    // i64 weights near 2^61 whose total still fits: three huge ones plus small ones
+    for round in 0..ctx.budget(6, 40) {
+        let mut ws: Vec<i64> = vec![
+            (1i64 << 61) + ctx.rng.range(0, 1000),
+            (1i64 << 61) - ctx.rng.range(1, 1000),
+            (1i64 << 61) + ctx.rng.range(0, 5),
+        ];
+        let extra = ctx.rng.usize(20);
+        for _ in 0..extra {
+            let w = if ctx.rng.chance(1, 2) { ctx.rng.range(0, 1_000_000_000) } else { ctx.rng.range(0, 1i64 << 55) };
+            ws.push(w);
+        }
+        // total < 3·2^61 + 1005 + 20·2^55 < 2^63
+        ctx.rng.shuffle(&mut ws);
+        let n = ws.len();
+        let k = *ctx.rng.pick(&[2usize, 2, 3, 5, 64]);
+        ctx.count("corner:i64_near_2^61");
+        if round % 2 == 0 {
+            emit_greedy(ctx, false, k, &ws, &vec![FILL; n]);
+        }
+        emit_kk_auto(ctx, k, &ws, &vec![FILL; n]);
+    }
+    // f64 weights whose sums are not exact: tenths, thirds, integers just above 2^53
+    for round in 0..ctx.budget(30, 400) {
+        let n = 2 + ctx.rng.usize(60);
+        let kind = round % 3;
+        let ws = inexact_weights(ctx, kind, n);
+        let k = if ctx.rng.chance(1, 4) { *ctx.rng.pick(&CORNER_KS) } else { 2 + ctx.rng.usize(7) };
+        ctx.count(&format!("corner:f64_inexact_{}", ["tenths", "thirds", "above_2^53"][kind]));
+        let op = greedyf_op(k, &ws, &vec![FILL; n]);
+        run_op(ctx, &op);
+    }
+}
+
+/// `f64` weights whose sums round: multiples of 0.1, multiples of 1/3, even integers just
+/// above 2^53 (all non-negative and finite).
+fn inexact_weights(ctx: &mut Ctx, kind: usize, n: usize) -> Vec<f64> {
+    (0..n)
+        .map(|_| match kind {
+            0 => ctx.rng.range(0, 1000) as f64 * 0.1,
+            1 => ctx.rng.range(0, 1000) as f64 / 3.0,
+            _ => 9007199254740992.0 + 2.0 * ctx.rng.range(0, 500) as f64,
+        })
+        .collect()
+}
+
+const LARGE_KINDS: [&str; 8] =
+    ["random", "asc_blocks_4096", "desc_blocks_8192", "presorted_dups", "all_equal", "dominant", "small_ties", "dominant_at_seam"];
+
+/// Weight vectors for the large stream: random order, sorted in runs that coincide with blocks
+/// of 4096 / 8192 elements, fully pre-sorted with duplicates, all equal, one dominant weight
+/// (larger than the sum of the others; anywhere, or right at a block seam), small values.
+fn large_weights(ctx: &mut Ctx, kind: usize, n: usize) -> Vec<i64> {
+    match kind {
+        0 => (0..n).map(|_| ctx.rng.range(0, 1_000_000_000)).collect(),
+        1 | 2 => {
+            let mut v: Vec<i64> = (0..n).map(|_| ctx.rng.range(0, 1_000_000)).collect();
+            let b = if kind == 1 { 4096 } else { 8192 };
+            for c in v.chunks_mut(b) {
+                c.sort();
+                if kind == 2 {
+                    c.reverse();
+                }
+            }
+            v
+        }
+        3 => (0..n as i64).map(|i| i / 3).collect(),
+        4 => vec![ctx.rng.range(1, 1000); n],
+        5 | 7 => {
+            let mut v: Vec<i64> = (0..n).map(|_| ctx.rng.range(0, 100)).collect();
+            let i = if kind == 7 { 4096.min(n - 1) } else { ctx.rng.usize(n) };
+            v[i] = 0;
+            let s: i64 = v.iter().sum();
+            v[i] = s + 1 + ctx.rng.range(0, 1000);
+            v
+        }
+        _ => (0..n).map(|_| ctx.rng.range(0, 9)).collect(),
+    }
+}
+
+#[derive(Clone, Copy)]
+enum LargeAlgo {
+    GreedyI,
+    GreedyFInt,
+    GreedyInexact(usize),
+    Kk,
+}
+
+/// Sizes just above and far above the usual block thresholds (2^12, 2^13, 2^14, 2^16), never a
+/// multiple of a power of two.  The model follows Greedy and two-way KarmarkarKarp up to
+/// n = 21000 (quadratic list model: ≈ 8 s resp. ≈ 19 s at 20001, so the quick tier has one such
+/// Greedy case and keeps two-way KarmarkarKarp at 8193) and k-way KarmarkarKarp up to
+/// n·k = 13000; beyond, the oracle alone judges (LPT multiset, residue, gap ≤ largest weight,
+/// ids < k, reuse and pool-size independence).  k-way KarmarkarKarp keeps n·k·16 bytes in its
+/// heap, hence the smaller n for the large part counts.
+fn large_stream(ctx: &mut Ctx) {
+    use LargeAlgo::*;
+    // (algorithm, part count, weights, kind of weight vector)
+    let mut cases: Vec<(LargeAlgo, usize, usize, usize)> = vec![
+        (GreedyI, 64, 20001, 0),
+        (GreedyFInt, 65, 4097, 1),
+        (GreedyI, 257, 65548, 2),
+        (GreedyI, 1000, 70001, 6),
+        (GreedyInexact(0), 66, 8193, 0),
+        (GreedyInexact(1), 63, 4097, 0),
+        (GreedyInexact(2), 128, 20001, 0),
+        (Kk, 2, 8193, 0),
+        (Kk, 2, 4097, 7),
+        (Kk, 2, 70001, 5),
+        (Kk, 2, 65548, 1),
+        (Kk, 3, 4097, 0),
+        (Kk, 64, 20001, 0),
+        (Kk, 257, 8193, 2),
+        (Kk, 1000, 4097, 6),
+    ];
+    if !ctx.quick() {
+        cases.extend_from_slice(&[
+            (GreedyI, 66, 20001, 1),
+            (GreedyI, 128, 20001, 4),
+            (GreedyI, 63, 20001, 5),
+            (GreedyFInt, 256, 16422, 3),
+            (GreedyI, 2, 20001, 6),
+            (GreedyI, 64, 131077, 0),
+            (GreedyI, 1000, 140003, 2),
+            (GreedyFInt, 65, 140003, 1),
+            (GreedyI, 257, 70001, 7),
+            (GreedyInexact(0), 64, 140003, 0),
+            (GreedyInexact(1), 257, 65548, 0),
+            (GreedyInexact(2), 1000, 20001, 0),
+            (Kk, 2, 20001, 0),
+            (Kk, 2, 20001, 5),
+            (Kk, 2, 16422, 2),
+            (Kk, 2, 131077, 0),
+            (Kk, 2, 140003, 5),
+            (Kk, 2, 140003, 6),
+            (Kk, 2, 70001, 3),
+            (Kk, 3, 4097, 1),
+            (Kk, 3, 65548, 0),
+            (Kk, 5, 140003, 2),
+            (Kk, 66, 70001, 0),
+            (Kk, 128, 16422, 1),
+            (Kk, 65, 16422, 5),
+            (Kk, 256, 20001, 6),
+            (Kk, 1000, 8193, 0),
+        ]);
+    }
+    for (algo, k, n, kind) in cases {
+        ctx.count(&format!("large:{}", n));
+        ctx.count(&format!("large_kind:{}", LARGE_KINDS[kind]));
+        let p = vec![FILL; n];
+        match algo {
+            GreedyI | GreedyFInt => {
+                let ws = large_weights(ctx, kind, n);
+                ctx.count("large_greedy");
+                emit_greedy(ctx, matches!(algo, GreedyFInt), k, &ws, &p);
+            }
+            GreedyInexact(f) => {
+                let ws = inexact_weights(ctx, f, n);
+                ctx.count("large_greedy_inexact_f64");
+                let op = greedyf_op(k, &ws, &p);
+                run_op(ctx, &op);
+            }
+            Kk => {
+                let ws = large_weights(ctx, kind, n);
+                ctx.count(if k == 2 { "large_kk_two_way" } else { "large_kk_k_way" });
+                emit_kk_auto(ctx, k, &ws, &p);
             }
         }
     }
